@@ -65,7 +65,7 @@ func enc(f func(b buffer.Buffer) (int, error)) (b []byte, n int, err error) {
 // C10: scalar codecs are exact inverses; cross-width reads never truncate.
 func C10(c *runner.Cfg) *report.Result {
 	res := report.New("C10", "")
-	res.Rule = "exhaustive bool/byte/int16/uint16 and every (stored width x read width) pair for 16-bit values; 32/64-bit: 2^k, 2^k±1, varint and zig-zag boundaries, extremes + seeded values; floats: every exponent x mantissa patterns, ±0, ±Inf, NaN payloads, subnormals, MaxFloat32 neighbours; bin64/128/256 patterns; bytes/strings at every varint-class length with NUL/invalid UTF-8; oracle: decode(encode(v)) == v bit-for-bit, encoder size == bytes appended == decoder size, cross-width read == stored number or an error iff not representable; non-trivial = encoding longer than one byte; distinct = distinct (type,value)"
+	res.Rule = "exhaustive bool/byte/int16/uint16 and every (stored width x read width) pair for 16-bit values; 32/64-bit: 2^k, 2^k±1, varint and zig-zag boundaries, extremes + seeded values; floats: every exponent x mantissa patterns, ±0, ±Inf, NaN payloads, subnormals, MaxFloat32 neighbours; bin64/128/256 patterns; bytes/strings at every varint-class length with NUL/invalid UTF-8; oracle: decode(encode(v)) == v bit-for-bit, ParseValue accepts the encoding with the same size, encoder size == bytes appended == decoder size, cross-width read == stored number or an error iff not representable; non-trivial = encoding longer than one byte; distinct = distinct (type,value)"
 	bad := func(key, op, val string, b []byte, got string) {
 		h := fmt.Sprintf("%x", b)
 		if len(h) > 80 {
@@ -86,6 +86,10 @@ func C10(c *runner.Cfg) *report.Result {
 		}
 		if nd != len(b) {
 			bad(key+":decoder-size", op, val, tail, fmt.Sprintf("decoder reported %d, value has %d bytes", nd, len(b)))
+		}
+		// the validating parser reads the same encoding at the same width
+		if _, n, err := spec.ParseValue(b); err != nil || n != len(b) {
+			bad(key+":parser-rejects-own-encoding", op, val, tail, fmt.Sprintf("ParseValue: n=%d err=%v", n, err))
 		}
 	}
 
